@@ -23,6 +23,7 @@ def suites : List (String × (String → String → CaseResult)) :=
   [("format", FormatSuite.runCase .c02)] ++
   [("format03", FormatSuite.runCase .c03)] ++
   [("consts", ConstsSuite.runCase)] ++
+  [("values", ValuesSuite.runCase)] ++
   []
 
 structure DAcc where
